@@ -75,6 +75,41 @@ theorem names_injective (d : Decl) (hp : d.parts.length = d.ms.length) (i1 i2 : 
 
 example : exW.parts.length = exW.ms.length ∧ exW.scalar [0, 1] ≠ exW.scalar [1, 0] := by decide
 
+/-- `der(` … `)` is split off as a prefix and a suffix (not as character sets): for a name that
+    does not itself start with `der(` nor end with `)`, whatever its letters (`rho`, `d`, `e1`, `drum.e` …),
+    the derivative symbol `der(name)` is parsed into exactly `der(`, `name`, `)`. -/
+theorem splitName_der_wrap (core : List Char) (h1 : stripDer core = ([], core))
+    (h2 : core.reverse.takeWhile (· == ')') = []) :
+    splitName (['d', 'e', 'r', '('] ++ core ++ [')']) = (['d', 'e', 'r', '('], core, [')']) := by
+  have hd : core.reverse.dropWhile (· == ')') = core.reverse := by
+    have := List.takeWhile_append_dropWhile (p := (· == ')')) (l := core.reverse)
+    rw [h2] at this; simpa using this
+  simp only [splitName, List.cons_append, List.nil_append, stripDer]
+  have hs : stripDer (core ++ [')']) = ([], core ++ [')']) := by
+    -- `core ++ [")"]` starts with `der(` only if `core` does
+    match core, h1 with
+    | 'd' :: 'e' :: 'r' :: '(' :: rest, h1 => simp [stripDer] at h1
+    | [], _ => rfl
+    | [a], _ => unfold stripDer; split <;> simp_all
+    | [a, b], _ => unfold stripDer; split <;> simp_all
+    | [a, b, c], _ => unfold stripDer; split <;> simp_all
+    | a :: b :: c :: d :: rest, h1 =>
+      by_cases hm : a = 'd' ∧ b = 'e' ∧ c = 'r' ∧ d = '('
+      · obtain ⟨rfl, rfl, rfl, rfl⟩ := hm; simp [stripDer] at h1
+      · simp only [List.cons_append]
+        unfold stripDer
+        split
+        · next heq =>
+          simp only [List.cons.injEq] at heq
+          exact absurd ⟨heq.1, heq.2.1, heq.2.2.1, heq.2.2.2.1⟩ hm
+        · rfl
+  rw [hs]
+  simp [List.reverse_append, List.takeWhile, List.dropWhile, h2, hd]
+
+example : splitName ['d','e','r','(','r','h','o',')'] = (['d','e','r','('], ['r','h','o'], [')']) ∧
+    stripDer ['d','r','u','m','.','e'] = ([], ['d','r','u','m','.','e']) ∧
+    (['e', '1'] : List Char).reverse.takeWhile (· == ')') = [] := by decide
+
 /-- Stripping the bracket groups of a scalar's name gives back the variable's name. -/
 theorem name_strips_to_variable (d : Decl) (hp : d.parts.length = d.ms.length)
     (hpre : NoBr d.pre) (hpost : NoBr d.post) (hparts : ∀ p ∈ d.parts, NoBr p) (idx : List Nat) :
@@ -201,6 +236,21 @@ theorem delay_renamed (xs : List (List Char)) (name : List Char) (shape : List N
 
 example : delayMove [['d'], ['e']] ['d'] (expandDelayNames ['d'] [2, 1])
     = [['e'], ['d', '[', '1', ',', '1', ']'], ['d', '[', '2', ',', '1', ']']] := by decide
+
+/-- The delay state named `name[i+1,j+1]` (the `(i·c + j)`-th created) delays entry `(i, j)` of the
+    delayed matrix expression, i.e. reads storage position `i + j·r` — not position `i·c + j`. -/
+theorem delay_arg_element (name : List Char) (r c i j : Nat) (hi : i < r) (hj : j < c) :
+    (expandDelayNames name [r, c])[i * c + j]? = some (name ++ idxText [i, j]) ∧
+    (delayArgPositions [r, c])[i * c + j]? = some (i + j * r) := by
+  have hr : InRange [r, c] [i, j] := by simp [InRange, hi, hj]
+  have h := (ndindex_rowmajor [r, c] [i, j]).2.1 hr
+  have e : ravel [r, c] [i, j] = i * c + j := by simp [ravel, prod]
+  rw [e] at h
+  simp only [expandDelayNames, delayArgPositions, List.getElem?_map, h, Option.map_some, elemPos]
+  refine ⟨?_, ?_⟩ <;> first | trivial | rfl
+
+example : delayArgPositions [2, 3] = [0, 2, 4, 1, 3, 5] ∧
+    (expandDelayNames ['_', 'd'] [2, 3])[1]? = some ['_', 'd', '[', '1', ',', '2', ']'] := by decide
 
 /-! ## The residual under the renaming -/
 
